@@ -1,6 +1,18 @@
-/- C13 — property theorems only. -/
+/-
+C13 — chunked (dask) reprojection equals whole-array reprojection.  Property theorems only.
+
+Setting of every theorem: grids of one CRS, nearest-neighbour resampling; `c : Cfg` holds the two
+geoboxes (`S`, `D` pixel→world transforms), ANY source chunking `sy × sx` and ANY destination
+chunking `dy × dx` (`Chain 0 t N`: the tiles cover `[0, N)` contiguously — 1-pixel, ragged, empty
+tiles allowed), the dependency map `deps` and the nodata settings.  `G : Gdal` (GDAL's value
+nudging) and the content of the uninitialised in-memory destination `buf` are arbitrary.
+-/
 import OdcGeo.Model.C13
+import OdcGeo.Lemmas.C13
+
 namespace OdcGeo.C13
+
+/-! ## fill value -/
 
 /-- `resolve_fill_value`: destination nodata, else source nodata, else NaN for floating point, else 0. -/
 theorem resolveFill_spec (d s : Option Val) (k : DKind) :
@@ -10,5 +22,271 @@ theorem resolveFill_spec (d s : Option Val) (k : DKind) :
       | none, some v => v
       | none, none => if k = .float then .nan else .num 0 := by
   cases d <;> cases s <;> cases k <;> simp [resolveFill]
+
+/-- what `_xr_reproject_da` guarantees about the nodata pair it hands down:
+a missing destination nodata implies a missing source nodata. -/
+theorem xrNodata_guarantee (attr kw dst : Option Val) :
+    (xrNodata attr kw dst).2 = none → (xrNodata attr kw dst).1 = none := by
+  cases attr <;> cases kw <;> cases dst <;> simp [xrNodata]
+
+/-! ## tilings -/
+
+/-- every dask chunking `chunks` of an axis is a tiling of `[0, sum chunks)` -/
+theorem chunksTiling_isTiling (chunks : List Nat) :
+    Chain 0 (chunksTiling chunks) ((chunks.sum : Nat) : Int) := by
+  have := chunksTilingFrom_chain chunks 0
+  simpa [chunksTiling] using this
+
+/-! ## assemble = window of the mosaic -/
+
+/-- `BlockAssembler.extract` over the blocks of the selected source tiles, in the clipped
+window with offset `(oy, ox)`: every pixel covered by a selected tile is the pixel of the full
+source (mosaic), every other pixel is the fill. -/
+theorem assemble_eq_mosaic_window (src : Img) (sy sx cy cx : List Span) (y1 x1 : Nat) (oy ox : Int)
+    (sel : List TIdx) (blocks : List Img) (h w : Int) (fill : Val)
+    (hb : mapOpt (srcBlock src sy sx) sel = some blocks)
+    (hclip : ∀ idx ∈ sel, y1 ≤ idx.1 ∧ x1 ≤ idx.2 ∧
+        cy[idx.1 - y1]? = (sy[idx.1]?).map (fun s => (s.1 - oy, s.2 - oy)) ∧
+        cx[idx.2 - x1]? = (sx[idx.2]?).map (fun s => (s.1 - ox, s.2 - ox))) :
+    ∃ asm, assemble cy cx ((sel.map fun i => (i.1 - y1, i.2 - x1)).zip blocks) (full h w fill) = some asm ∧
+      (∀ p : Int × Int, (∃ idx ∈ sel, InTile sy idx.1 (p.1 + oy) ∧ InTile sx idx.2 (p.2 + ox)) →
+          asm p = src (p.1 + oy, p.2 + ox)) ∧
+      (∀ p : Int × Int, (¬ ∃ idx ∈ sel, InTile sy idx.1 (p.1 + oy) ∧ InTile sx idx.2 (p.2 + ox)) →
+          asm p = full h w fill p) :=
+  assemble_spec src sy sx cy cx y1 x1 oy ox sel blocks (full h w fill) hb hclip
+
+/-! ## chunked = whole -/
+
+/-- **Chunked equals whole** (same CRS, nearest neighbour): for every source chunking, every
+destination chunking, every *complete* dependency map (C12), every nodata pair that
+`xr_reproject` can hand down, every dtype kind, every content of the uninitialised in-memory
+buffer: each pixel of the computed dask array equals the pixel of the in-memory result. -/
+theorem chunked_eq_whole_nn (c : Cfg) (G : Gdal) (src buf : Img)
+    (hV : c.variant = Variant.repaired)
+    (hbuf : WF buf c.dstH c.dstW)
+    (hsy : Chain 0 c.sy c.srcH) (hsx : Chain 0 c.sx c.srcW)
+    (hdy : Chain 0 c.dy c.dstH) (hdx : Chain 0 c.dx c.dstW)
+    (hS : c.S.det ≠ 0)
+    (hvalid : DepsValid c) (hcomplete : deps_complete c)
+    (hnd : c.dstNd = none → c.srcNd = none)
+    (hnd1 : NodataOk c.kind c.dstNd) (hnd2 : NodataOk c.kind c.srcNd)
+    (d : Int × Int) (hd : 0 ≤ d.1 ∧ d.1 < c.dstH ∧ 0 ≤ d.2 ∧ d.2 < c.dstW) :
+    daskResult c G src d = wholeResult c G src buf d := by
+  have hw : wholeResult c G src buf d = outPix c.variant G c.kind c.srcNd
+      (rioNodataDefault c.kind c.dstNd) src (samplePix (c.S.inv * c.D) c.srcH c.srcW d) := by
+    unfold wholeResult rioReproject
+    exact rioPlane_eq _ _ _ _ _ _ _ _ _ _ _ _ ((hbuf d).2 hd)
+  obtain ⟨iy, ix, hiy, hix, hempty, htask⟩ := dask_pixel c G src hsy hsx hdy hdx hS hvalid d hd
+  have hdn := chunkDstNodata_eq_rio c.kind c.srcNd c.dstNd hnd
+  by_cases he : lookupDeps c.deps (iy, ix) = []
+  · -- constant block: completeness says the pixel samples nothing
+    rw [hempty he, hw]
+    cases hs : samplePix (c.S.inv * c.D) c.srcH c.srcW d with
+    | some s =>
+      obtain ⟨i, hi, _⟩ := hcomplete iy ix d hiy hix s hs
+      rw [he] at hi
+      simp at hi
+    | none =>
+      have := chunk_fill_eq c.kind c.srcNd c.dstNd hnd1 hnd2
+      rw [hdn] at this
+      simp only [outPix, Option.map_some, hV, this]
+  · rw [hw, htask he, hV, hdn]
+    cases hs : samplePix (c.S.inv * c.D) c.srcH c.srcW d with
+    | none => trivial
+    | some s => exact hcomplete iy ix d hiy hix s hs
+
+/-! ## fill -/
+
+/-- **Uniform fill**: a destination pixel that no source pixel reaches holds
+`resolve_fill_value(dst_nodata, src_nodata, dtype)` — in chunks computed by a task and in
+constant chunks alike, for EVERY dependency map (complete or not), every nodata setting
+(destination / source / none), every dtype kind. -/
+theorem fill_uniform (c : Cfg) (G : Gdal) (src : Img)
+    (hV : c.variant = Variant.repaired)
+    (hsy : Chain 0 c.sy c.srcH) (hsx : Chain 0 c.sx c.srcW)
+    (hdy : Chain 0 c.dy c.dstH) (hdx : Chain 0 c.dx c.dstW)
+    (hS : c.S.det ≠ 0) (hvalid : DepsValid c)
+    (hnd1 : NodataOk c.kind c.dstNd) (hnd2 : NodataOk c.kind c.srcNd)
+    (d : Int × Int) (hd : 0 ≤ d.1 ∧ d.1 < c.dstH ∧ 0 ≤ d.2 ∧ d.2 < c.dstW)
+    (hun : samplePix (c.S.inv * c.D) c.srcH c.srcW d = none) :
+    daskResult c G src d = some (resolveFill c.dstNd c.srcNd c.kind) := by
+  obtain ⟨iy, ix, _, _, hempty, htask⟩ := dask_pixel c G src hsy hsx hdy hdx hS hvalid d hd
+  by_cases he : lookupDeps c.deps (iy, ix) = []
+  · exact hempty he
+  · rw [htask he (by rw [hun]; trivial), hun, hV]
+    simp only [outPix, Option.map_some, chunk_fill_eq c.kind c.srcNd c.dstNd hnd1 hnd2]
+
+/-- the in-memory path fills unreached pixels with the same value (nodata pair as handed down by
+`xr_reproject`) -/
+theorem fill_uniform_whole (c : Cfg) (G : Gdal) (src buf : Img)
+    (hV : c.variant = Variant.repaired) (hbuf : WF buf c.dstH c.dstW)
+    (hnd : c.dstNd = none → c.srcNd = none)
+    (hnd1 : NodataOk c.kind c.dstNd) (hnd2 : NodataOk c.kind c.srcNd)
+    (d : Int × Int) (hd : 0 ≤ d.1 ∧ d.1 < c.dstH ∧ 0 ≤ d.2 ∧ d.2 < c.dstW)
+    (hun : samplePix (c.S.inv * c.D) c.srcH c.srcW d = none) :
+    wholeResult c G src buf d = some (resolveFill c.dstNd c.srcNd c.kind) := by
+  unfold wholeResult rioReproject
+  rw [rioPlane_eq _ _ _ _ _ _ _ _ _ _ _ _ ((hbuf d).2 hd), hun, hV]
+  have := chunk_fill_eq c.kind c.srcNd c.dstNd hnd1 hnd2
+  rw [chunkDstNodata_eq_rio c.kind c.srcNd c.dstNd hnd] at this
+  simp only [outPix, Option.map_some, this]
+
+/-- **Disjoint rasters give an all-fill array, not an error**: if no destination pixel reaches
+the source, the computed dask array is defined (`some`) and equal to the fill value on every
+pixel — whatever the dependency map lists (e.g. the clamped edge tiles of F15). -/
+theorem disjoint_all_fill (c : Cfg) (G : Gdal) (src : Img)
+    (hV : c.variant = Variant.repaired)
+    (hsy : Chain 0 c.sy c.srcH) (hsx : Chain 0 c.sx c.srcW)
+    (hdy : Chain 0 c.dy c.dstH) (hdx : Chain 0 c.dx c.dstW)
+    (hS : c.S.det ≠ 0) (hvalid : DepsValid c)
+    (hnd1 : NodataOk c.kind c.dstNd) (hnd2 : NodataOk c.kind c.srcNd)
+    (hdisj : ∀ d, samplePix (c.S.inv * c.D) c.srcH c.srcW d = none) :
+    ∀ d : Int × Int, 0 ≤ d.1 ∧ d.1 < c.dstH ∧ 0 ≤ d.2 ∧ d.2 < c.dstW →
+      daskResult c G src d = some (resolveFill c.dstNd c.srcNd c.kind) :=
+  fun d hd => fill_uniform c G src hV hsy hsx hdy hdx hS hvalid hnd1 hnd2 d hd (hdisj d)
+
+/-! ## execution order -/
+
+/-- **Order independence**: whatever two schedules were run (any orders, any subsets of tasks,
+repetitions included) — if both ran (each task found its dependencies in the store), a key they
+both computed holds the same block, namely its schedule-free denotation: a source block, or
+`dstBlock` — the block `daskResult` reads its pixels from — which is a function of the source
+blocks only. -/
+theorem order_independent (c : Cfg) (G : Gdal) (src : Img) (o1 o2 : List Key) (st1 st2 : Store)
+    (h1 : runOrder (graph c G src) o1 [] = some st1)
+    (h2 : runOrder (graph c G src) o2 [] = some st2)
+    (k : Key) (v1 v2 : Img) (hk1 : st1.lookup k = some v1) (hk2 : st2.lookup k = some v2) :
+    v1 = v2 ∧ denote c G src k = some v1 := by
+  have e1 := runOrder_ok c G src o1 (st := []) (fun _ _ h => by simp at h) h1 k v1 (lookup_mem hk1)
+  have e2 := runOrder_ok c G src o2 (st := []) (fun _ _ h => by simp at h) h2 k v2 (lookup_mem hk2)
+  rw [e1] at e2
+  exact ⟨by simpa using e2, e1⟩
+
+/-- **Every topological order runs** and computes every scheduled key: a schedule in which each
+task comes after the source blocks it depends on never fails, and the store ends up holding the
+denotation of each scheduled key. -/
+theorem topo_order_runs (c : Cfg) (G : Gdal) (src : Img)
+    (hsy : Chain 0 c.sy c.srcH) (hsx : Chain 0 c.sx c.srcW) (hS : c.S.det ≠ 0)
+    (hvalid : DepsValid c) (order : List Key) (hv : ValidOrder c [] order) :
+    ∃ st, runOrder (graph c G src) order [] = some st ∧
+      ∀ k ∈ order, ∃ v, st.lookup k = some v ∧ denote c G src k = some v := by
+  obtain ⟨st, h1, h2⟩ := runOrder_valid c G src hsy hsx hS hvalid order [] []
+    (fun _ _ h => by simp at h) (fun _ h => by simp at h) hv
+  refine ⟨st, h1, fun k hk => ?_⟩
+  obtain ⟨v, hv'⟩ := h2 k (Or.inr hk)
+  exact ⟨v, hv', runOrder_ok c G src order (st := []) (fun _ _ h => by simp at h) h1 k v (lookup_mem hv')⟩
+
+/-! ## the code as found violates the statements (witnesses replayed on the real code by the
+harness: `WITNESSES` in `harness/c13.py`) -/
+
+/-- 1×1 source, 1×2 destination on the same grid, one chunk each: pixel `(0, 1)` is unreached. -/
+def cexCfg (V : Variant) (k : DKind) (sn dn : Option Val) : Cfg :=
+  { variant := V, kind := k, srcH := 1, srcW := 1, S := Aff.id, dstH := 1, dstW := 2, D := Aff.id,
+    sy := [(0, 1)], sx := [(0, 1)], dy := [(0, 1)], dx := [(0, 2)],
+    deps := [((0, 0), [(0, 0)])], srcNd := sn, dstNd := dn }
+
+def cexGdal : Gdal := ⟨fun _ v => v⟩
+
+/-- **F10 as found**: float data without nodata — the unreached pixel of a partially covered
+chunk holds 0, not `resolve_fill_value(None, None, float) = NaN` (`fill_uniform` fails) … -/
+theorem fill_uniform_as_found_cex :
+    daskResult (cexCfg Variant.asFound .float none none) cexGdal (full 1 1 (.num 5)) (0, 1)
+      = some (.num 0) ∧
+    resolveFill none none .float = .nan := by
+  decide +kernel
+
+/-- … and differs from the in-memory result (`chunked_eq_whole_nn` fails), while the repaired
+code gives NaN in both. -/
+theorem chunked_eq_whole_as_found_cex :
+    daskResult (cexCfg Variant.asFound .float none none) cexGdal (full 1 1 (.num 5)) (0, 1)
+      ≠ wholeResult (cexCfg Variant.asFound .float none none) cexGdal (full 1 1 (.num 5))
+          (full 1 2 (.num 77)) (0, 1) ∧
+    daskResult (cexCfg Variant.repaired .float none none) cexGdal (full 1 1 (.num 5)) (0, 1)
+      = some .nan := by
+  decide +kernel
+
+/-- **Boolean nodata as found**: `nodata=True` — unreached pixels come out `False` in a task
+chunk (and in memory) while `resolve_fill_value` (constant chunks) says `True`; repaired: `True`. -/
+theorem bool_nodata_as_found_cex :
+    daskResult (cexCfg Variant.asFound .bool (some (.num 1)) (some (.num 1))) cexGdal
+        (full 1 1 (.num 0)) (0, 1) = some (.num 0) ∧
+    resolveFill (some (.num 1)) (some (.num 1)) .bool = .num 1 ∧
+    daskResult (cexCfg Variant.repaired .bool (some (.num 1)) (some (.num 1))) cexGdal
+        (full 1 1 (.num 0)) (0, 1) = some (.num 1) := by
+  decide +kernel
+
+/-- The hypothesis `dstNd = none → srcNd = none` of `chunked_eq_whole_nn` is needed below
+`xr_reproject`: calling `_dask_rio_reproject` / `rio_reproject` directly with float data,
+`src_nodata=7`, `dst_nodata=None` fills with 7 (chunked, `resolve_fill_value`) versus NaN
+(`rio_reproject`'s default).  `_xr_reproject_da` never produces this pair (`xrNodata_guarantee`). -/
+theorem lowlevel_src_nodata_only_cex :
+    daskResult (cexCfg Variant.repaired .float (some (.num 7)) none) cexGdal (full 1 1 (.num 5)) (0, 1)
+      = some (.num 7) ∧
+    wholeResult (cexCfg Variant.repaired .float (some (.num 7)) none) cexGdal (full 1 1 (.num 5))
+      (full 1 2 (.num 77)) (0, 1) = some .nan := by
+  decide +kernel
+
+/-! ## the hypotheses are satisfiable -/
+
+theorem cexCfg_deps_complete (V : Variant) (k : DKind) (sn dn : Option Val) :
+    deps_complete (cexCfg V k sn dn) := by
+  rintro iy ix ⟨y, x⟩ ⟨s1, e1, a1, a2⟩ ⟨s2, e2, a3, a4⟩ s hs
+  have hiy : iy = 0 := by
+    cases iy with
+    | zero => rfl
+    | succ n => simp [cexCfg] at e1
+  have hix : ix = 0 := by
+    cases ix with
+    | zero => rfl
+    | succ n => simp [cexCfg] at e2
+  subst hiy; subst hix
+  simp only [cexCfg, List.getElem?_cons_zero, Option.some.injEq] at e1 e2
+  subst e1; subst e2
+  simp only at a1 a2 a3 a4
+  have hy : y = 0 := by omega
+  have hx : x = 0 ∨ x = 1 := by omega
+  subst hy
+  have h0 : samplePix (Aff.id.inv * Aff.id) 1 1 (0, 0) = some (0, 0) := by decide +kernel
+  have h1 : samplePix (Aff.id.inv * Aff.id) 1 1 (0, 1) = none := by decide +kernel
+  simp only [cexCfg] at hs
+  rcases hx with rfl | rfl
+  · rw [h0] at hs
+    simp only [Option.some.injEq] at hs
+    subst hs
+    exact ⟨(0, 0), by simp [cexCfg, lookupDeps],
+      ⟨(0, 1), by simp [cexCfg], by decide, by decide⟩, ⟨(0, 1), by simp [cexCfg], by decide, by decide⟩⟩
+  · rw [h1] at hs
+    simp at hs
+
+theorem cexCfg_deps_valid (V : Variant) (k : DKind) (sn dn : Option Val) :
+    DepsValid (cexCfg V k sn dn) := by
+  intro idx i hi
+  have : lookupDeps (cexCfg V k sn dn).deps idx = [(0, 0)] ∨ lookupDeps (cexCfg V k sn dn).deps idx = [] := by
+    simp only [lookupDeps, cexCfg, List.lookup]
+    cases idx == ((0, 0) : TIdx) <;> simp
+  rcases this with h | h <;> rw [h] at hi <;> simp at hi
+  subst hi
+  simp [cexCfg]
+
+/-- all hypotheses of `chunked_eq_whole_nn` hold together on a concrete configuration -/
+example : daskResult (cexCfg Variant.repaired .float none none) cexGdal (full 1 1 (.num 5)) (0, 1)
+    = wholeResult (cexCfg Variant.repaired .float none none) cexGdal (full 1 1 (.num 5))
+        (full 1 2 (.num 77)) (0, 1) :=
+  chunked_eq_whole_nn _ _ _ _ rfl
+    (by intro p; simp only [full, cexCfg]; split <;> simp_all)
+    (by simp [cexCfg, Chain]) (by simp [cexCfg, Chain]) (by simp [cexCfg, Chain]) (by simp [cexCfg, Chain])
+    (by decide +kernel)
+    (cexCfg_deps_valid _ _ _ _)
+    (cexCfg_deps_complete _ _ _ _) (fun _ => rfl) (by intro h; cases h) (by intro h; cases h)
+    (0, 1) (by decide)
+
+/-- a valid schedule exists: source block first, then the destination block -/
+example : ValidOrder (cexCfg Variant.repaired .float none none) [] [Key.src (0, 0), Key.dst (0, 0)] := by
+  refine ⟨by simp [Ready, cexCfg], ⟨by simp [cexCfg], by simp [cexCfg], ?_⟩, trivial⟩
+  intro j hj
+  simp only [lookupDeps, cexCfg, List.lookup] at hj
+  simp at hj
+  subst hj
+  simp
 
 end OdcGeo.C13
